@@ -928,7 +928,7 @@ class C30(Prop):
 
     # ---------------------------------------------------------------- generation
     def gen(self, rng, tier):
-        n = {'quick': 0.7, 'thorough': 6.0, 'search': 2.5}.get(tier, 0.7)
+        n = {'quick': 0.6, 'thorough': 6.0, 'search': 2.5}.get(tier, 0.6)
         plan = [  # (op, source, count at scale 1)
             ('resolve', 'tmpl-vec', 34), ('resolve', 'fir-resolve', 10),
             ('pipef', 'tmpl-vec', 8), ('pipec', 'tmpl-vec', 8), ('pipec', 'tmpl-elem', 4),
